@@ -26,14 +26,44 @@ def satisfiedM (binary : Bool) (c : Case) : Bool :=
      | .none => r.2.isNil && dataEqual binary c.data r.1
      | p => !r.2.isNil && predHolds p r.2 && r.1.isNone)
 
+/-! With a custom `TypeHelper` the *helper's verdict* replaces the built-in comparison and emptiness
+check, and the receiver the unmarshaler works on is the one the helper's `New` made. The helper is
+part of the scripted input, so its three methods (`HelperBeh.new/assertEmpty/assertEqual`) are used
+as given; what the specification fixes is **what they are asked**: `New` about the case's value,
+`AssertEqual` about (expected := the case's value, actual := the receiver), `AssertEmpty` about the receiver. -/
+
+/-- the receiver before the call: a zero value, or what the custom helper's `New(c.Value)` returns -/
+def freshValue (hb : Option HelperBeh) (c : Case) : Int :=
+  match hb with
+  | none => 0
+  | some b => b.new c.value
+
+/-- the receiver after the call: what the unmarshaler stored, else the fresh value untouched -/
+def received (hb : Option HelperBeh) (c : Case) : Int :=
+  match unmarshalStored c.ubeh with
+  | some x => x
+  | none => freshValue hb c
+
+/-- is `actual` the expected value? nil helper: equality; custom helper: its `AssertEqual(expected, actual)` does not complain -/
+def valueAccepted (hb : Option HelperBeh) (expected actual : Int) : Bool :=
+  match hb with
+  | none => actual == expected
+  | some b => !b.assertEqual expected actual
+
+/-- is the receiver empty? nil helper: zero value; custom helper: its `AssertEmpty` does not complain -/
+def emptyAccepted (hb : Option HelperBeh) (v : Int) : Bool :=
+  match hb with
+  | none => v == 0
+  | some b => !b.assertEmpty v
+
 /-- unmarshal direction: hooks pass; without a predicate no error and the expected value; with one, an
-error meeting it and the receiver left empty -/
-def satisfiedU (c : Case) : Bool :=
+error meeting it and the receiver left empty — "expected value" and "empty" as judged by the helper -/
+def satisfiedU (hb : Option HelperBeh) (c : Case) : Bool :=
   hooksPass c &&
-    (let r := unmarshalResult c.ubeh
+    (let e := unmarshalErr c.ubeh
      match c.pred with
-     | .none => r.2.isNil && r.1 == c.value
-     | p => !r.2.isNil && predHolds p r.2 && r.1 == 0)
+     | .none => e.isNil && valueAccepted hb c.value (received hb c)
+     | p => !e.isNil && predHolds p e && emptyAccepted hb (received hb c))
 
 /-- the shape of known finding K1: `ErrorMatch` with a pattern that compiles, a non-nil error, no match -/
 def k1Shape (c : Case) (e : ErrV) : Bool :=
@@ -44,11 +74,12 @@ def k1Shape (c : Case) (e : ErrV) : Bool :=
 def applicable (h : Helper) (c : Case) : Bool :=
   if h.isMarshal then isForMarshal c.constraint else isForUnmarshal c.constraint
 
-def satisfied (h : Helper) (c : Case) : Bool :=
-  if h.isMarshal then satisfiedM h.isBinary c else satisfiedU c
+/-- `hb` is the `TypeHelper` handed to an Unmarshal helper (`none` = nil); Marshal helpers have none -/
+def satisfied (h : Helper) (hb : Option HelperBeh) (c : Case) : Bool :=
+  if h.isMarshal then satisfiedM h.isBinary c else satisfiedU hb c
 
 def k1 (h : Helper) (c : Case) : Bool :=
   hooksPass c &&
-    (if h.isMarshal then k1Shape c (marshalResult c.mbeh).2 else k1Shape c (unmarshalResult c.ubeh).2)
+    (if h.isMarshal then k1Shape c (marshalResult c.mbeh).2 else k1Shape c (unmarshalErr c.ubeh))
 
 end U.TestKit
